@@ -109,8 +109,14 @@ def gen_lines(rng, n):
             out.append((lab, "dir", rng.choice(["dw", "dd", "dq"]), [("e", etree(rng, 3)) for _ in range(rng.randrange(1, 4))]))
         elif k == 6:
             out.append((lab, "dir", "db", [("e", ("f", "low", etree(rng, 2))) if rng.random() < 0.7 else ("s", rng.choice(["ab", "A;b", "x//y", "/*z*/"])) for _ in range(rng.randrange(1, 4))]))
-        elif k == 7 and labels:
+        elif k == 7 and labels and rng.random() < 0.6:
             out.append((lab, "ins", rng.choice(["rjmp", "rcall", "brne", "breq"]), [("e", ("id", rng.choice(labels)))]))
+        elif k == 7:
+            # the location counter is a symbol like any other: its spelling may vary too
+            if rng.random() < 0.5:
+                out.append((lab, "ins", rng.choice(["rjmp", "rcall", "brne", "breq"]), [("e", ("b", rng.choice("+-"), ("id", "pc"), ("c", rng.randrange(0, 20), 0)))]))
+            else:
+                out.append((lab, "dir", "dw", [("e", ("id", "pc")), ("e", ("b", "+", ("id", "pc"), ("c", 1, 0)))]))
         else:
             out.append((lab, "ins", rng.choice(["inc", "push", "com"]), [("r", rng.choice(REGS))]))
     return out
@@ -145,7 +151,7 @@ def run(res):
     vh, exe = P.base(res, PROP)
     rng = random.Random(res.seed)
     pairs = []
-    for _ in range(500 if res.tier == "quick" else 50000):
+    for _ in range(500 if res.tier == "quick" else 200000):
         ls = gen_lines(rng, rng.choice([2, 5, 9, 15]))
         orig = render(ls, Plain())
         for _ in range(3):
